@@ -208,8 +208,11 @@ def _member_fact(fa, at_stmt, dct, key, want: bool) -> bool:
     for a, pol in fx.atoms:
         if isinstance(a, ast.Compare) and len(a.ops) == 1 and isinstance(a.ops[0], (ast.In, ast.NotIn)):
             is_in = isinstance(a.ops[0], ast.In) == pol
-            if is_in == want and strip_sites(fa.term_of(a.left)) == key and strip_sites(fa.term_of(a.comparators[0])) == dct:
-                return True
+            if is_in == want and strip_sites(fa.term_of(a.left)) == key:
+                ct = strip_sites(fa.term_of(a.comparators[0]))
+                # getattr(node, "_q_metadata", None) reads as node._q_metadata | None; membership in None cannot hold
+                if ct == dct or {x for x in unphi_terms(ct) if x != ("const", None)} == {dct}:
+                    return True
     return False
 
 
